@@ -24,6 +24,17 @@ type c18Input struct {
 	Transient bool
 	// EmptyName: ParseFile("")
 	EmptyName bool
+	// Comment: the comment character the parser is configured with (0: the default #)
+	Comment byte
+}
+
+// config: the parser configuration this input is read under (by the channel parser and by the reference alike)
+func (in c18Input) config() parser.Config {
+	c := parser.NewDefaultConfig()
+	if in.Comment != 0 {
+		c.CommentChar = in.Comment
+	}
+	return c
 }
 
 // c18ThirdUse: the Parser value has been used twice before (second-use-of-a-parser explores both).
@@ -98,6 +109,13 @@ func c18Inputs(tier string) []c18Input {
 		ins = append(ins, c18Input{Name: "dotdot-after-a-symbolic-link-to-a-directory", File: base + "/dir/link/../log.yaml", FailAt: -1})
 		ins = append(ins, c18Input{Name: "doubled-separators-and-dots", File: base + "/./dir//./log.yaml", FailAt: -1})
 		ins = append(ins, c18Input{Name: "empty-name", EmptyName: true, FailAt: -1})
+		// a parser configured with another comment character (a configuration is part of the parser, whichever way the input
+		// reaches it): a file and a stream in which ; comments and # is a letter
+		semi := "; my food log\na:\n  ; note: x\n  x: 1\n#hash:\n  #y: 2\n  ; just text\nb:\n  z: 3\n"
+		ioutil.WriteFile(base+"/dir/semi.yaml", []byte(semi), 0o644)
+		ins = append(ins, c18Input{Name: "semicolon-comments-file", File: base + "/dir/semi.yaml", FailAt: -1, Comment: ';'})
+		ins = append(ins, c18Input{Name: "semicolon-comments-stream", Text: semi, FailAt: -1, Comment: ';'})
+		ins = append(ins, c18Input{Name: "semicolon-comments-stream-with-error", Text: semi + "  nosep\n", FailAt: -1, Comment: ';'})
 	}
 	ins = append(ins, c18Input{Name: "name-too-long", File: os.TempDir() + "/" + strings.Repeat("n", 300) + ".yaml", FailAt: -1})
 	loopDir := loopDirFor()
@@ -165,9 +183,9 @@ func c18Reference(in c18Input) (events []string, finalErr string) {
 	}
 	var err error
 	if in.isFile() {
-		err = parser.ParseFileCallback(in.File, parser.NewDefaultConfig(), cb)
+		err = parser.ParseFileCallback(in.File, in.config(), cb)
 	} else {
-		err = parser.ParseStreamCallback(in.reader(), parser.NewDefaultConfig(), cb)
+		err = parser.ParseStreamCallback(in.reader(), in.config(), cb)
 	}
 	if err != nil {
 		finalErr = err.Error()
@@ -201,7 +219,7 @@ func c18RunTwo(x *Exec, ins [2]c18Input, policy int) (obs [2]c18Obs, deadlock bo
 	var kept [2][]*shared.ParserNode
 	for i := 0; i < 2; i++ {
 		i := i
-		p := parser.NewParser(parser.NewDefaultConfig())
+		p := parser.NewParser(ins[i].config())
 		s.NameChan(p.Nodes, fmt.Sprintf("Nodes%d", i))
 		s.NameChan(p.Errors, fmt.Sprintf("Errors%d", i))
 		s.NameChan(p.Done, fmt.Sprintf("Done%d", i))
@@ -246,7 +264,7 @@ func c18RunTwo(x *Exec, ins [2]c18Input, policy int) (obs [2]c18Obs, deadlock bo
 func c18RunModelAfter(x *Exec, first *c18Input, in c18Input, policy int) c18Obs {
 	var o c18Obs
 	s := NewSched(x)
-	p := parser.NewParser(parser.NewDefaultConfig())
+	p := parser.NewParser(in.config())
 	s.NameChan(p.Nodes, "Nodes")
 	s.NameChan(p.Errors, "Errors")
 	s.NameChan(p.Done, "Done")
@@ -327,7 +345,7 @@ func c18RunModelAfter(x *Exec, first *c18Input, in c18Input, policy int) c18Obs 
 // c18RunReal: the same consumer on real channels, free-running (model validation).
 func c18RunReal(in c18Input, policy int, limit time.Duration) (events []string, finished bool) {
 	verifshim.SendHook = nil
-	p := parser.NewParser(parser.NewDefaultConfig())
+	p := parser.NewParser(in.config())
 	go func() {
 		if in.isFile() {
 			p.ParseFile(in.File)
